@@ -94,6 +94,15 @@ fn gen_instance(rng: &mut Rng) -> Scenario {
             sc.handlers.push(HandlerSpec::Element { sel: sel.to_string(), ops: vec![ElOp::SetAttr("m".into(), "1".into())] });
         }
     }
+    if rng.chance(1, 8) {
+        // pass-through rewriters that only follow <meta charset>: whatever they share must not
+        // carry one document's declaration into another instance
+        let cs = rng.pick(&["windows-1251", "shift_jis", "koi8-r", "gbk", "iso-8859-2", "utf-8", "bogus"]);
+        sc = Scenario::new(format!("<html><head><meta charset=\"{cs}\"><title>t</title></head><p>x</p>").into_bytes());
+        sc.handlers = vec![];
+        sc.adjust_charset = true;
+        sc.closure_sink = false;
+    }
     if rng.chance(1, 4) {
         sc.adjust_charset = true;
     }
